@@ -101,6 +101,6 @@ def hits():
 def limit_for(n):
     """Steps (loop iterations + package-level calls) allowed for one public call on curves of n points.
     The heaviest terminating paths are quadratic (grdp re-evaluates every segment per refinement, the
-    recursive multi-knee wrappers call an O(n) detector per split); measured use stays below 10 % of this."""
+    recursive multi-knee wrappers call an O(n) detector per split); measured use stays below 20 % of this."""
     n = int(n)
-    return 20000 + 400 * n + 12 * n * n
+    return 20000 + 400 * n + 6 * n * n
